@@ -299,26 +299,56 @@ func runC01(c *Ctx) {
 		c.Anchor("O1.4", "NewStep(from, to, step, duration)")
 	} else {
 		from, to, step, dur := ssa.Value(st.Params[0]), ssa.Value(st.Params[1]), ssa.Value(st.Params[2]), ssa.Value(st.Params[3])
+		// the level loop: in NewStep itself or in a helper of the package it calls (stepLevels(from, to, step, duration))
+		stRegion := FindFuncs(st, 2, func(*ssa.Function) bool { return true })
 		var loopConst *ssa.Call
-		EachInstr(st, func(in ssa.Instruction) {
-			cl, ok := in.(*ssa.Call)
-			if ok && MatchCC(&cl.Call, Spec{"./core/schedule", "", "NewConst"}) && BlockCanReach(cl.Block(), cl.Block()) {
-				loopConst = cl
+		for _, g := range stRegion {
+			EachInstr(g, func(in ssa.Instruction) {
+				cl, ok := in.(*ssa.Call)
+				if ok && MatchCC(&cl.Call, Spec{"./core/schedule", "", "NewConst"}) && BlockCanReach(cl.Block(), cl.Block()) {
+					loopConst = cl
+				}
+			})
+		}
+		// v is NewStep's parameter p, directly or as the parameter of the helper that receives it at its only call site
+		is := func(v, p ssa.Value) bool {
+			for d := 0; d < 3; d++ {
+				if v == p {
+					return true
+				}
+				pr, ok := v.(*ssa.Parameter)
+				if !ok {
+					return false
+				}
+				site := SoleCallSite(pr.Parent())
+				if site == nil {
+					return false
+				}
+				found := false
+				for i, q := range pr.Parent().Params {
+					if q == pr && i < len(CC(site).Args) {
+						v, found = CC(site).Args[i], true
+					}
+				}
+				if !found {
+					return false
+				}
 			}
-		})
+			return false
+		}
 		if loopConst == nil {
 			c.Bad("O1.4", fk(st)+":const-per-level", st.Pos(), "no NewConst call inside a loop")
 		} else {
 			phi, isPhi := loopConst.Call.Args[0].(*ssa.Phi)
-			okLoop := isPhi && loopConst.Call.Args[1] == dur
+			okLoop := isPhi && is(loopConst.Call.Args[1], dur)
 			detail := "NewConst(level, duration) with level the loop variable"
 			if okLoop {
 				nInit, nBack := 0, 0
 				for _, e := range phi.Edges {
-					if e == from {
+					if is(e, from) {
 						nInit++
 					} else if b, ok := e.(*ssa.BinOp); ok && b.Op == token.ADD && b.X == ssa.Value(phi) {
-						if cv, ok := b.Y.(*ssa.Convert); ok && cv.X == step {
+						if cv, ok := b.Y.(*ssa.Convert); ok && is(cv.X, step) {
 							nBack++
 						}
 					}
@@ -326,7 +356,7 @@ func runC01(c *Ctx) {
 				okCond := false
 				for _, f := range CmpFactsAt(loopConst) {
 					f = f.Canon()
-					if f.Op == token.LEQ && f.X == ssa.Value(phi) && f.Y == to {
+					if f.Op == token.LEQ && f.X == ssa.Value(phi) && is(f.Y, to) {
 						okCond = true
 					}
 				}
@@ -348,11 +378,17 @@ func runC01(c *Ctx) {
 		})
 		c.Check(okRet, "O1.4", fk(st)+":returns-composite-of-levels", st.Pos(), "the levels are returned as one composite")
 		apps := 0
-		EachInstr(st, func(in ssa.Instruction) {
-			if IsBuiltinCall(in, "append") {
-				apps++
-			}
-		})
+		appFns := []*ssa.Function{st}
+		if loopConst != nil && loopConst.Parent() != st {
+			appFns = append(appFns, loopConst.Parent())
+		}
+		for _, g := range appFns {
+			EachInstr(g, func(in ssa.Instruction) {
+				if IsBuiltinCall(in, "append") {
+					apps++
+				}
+			})
+		}
 		c.Check(apps == 1, "O1.4", fk(st)+":one-append-per-level", st.Pos(), fmt.Sprintf("%d append calls (want 1)", apps))
 	}
 	// composite keeps order: NewComposite stores the given slice itself
